@@ -709,6 +709,20 @@ func init() {
 	}, "(*time.Timer).Reset")
 	reg(func(t *Task, fn *ssa.Function, args []Value) Value {
 		p := t.p
+		tm := timerOf(t, args[0])
+		t.preSync(args[0])
+		d := args[1].(*Term)
+		if !p.Branch(p.C.Slt(p.C.Const(64, 0), d)) {
+			panic(&goPanic{val: IfaceVal{T: runtimeErrorT, V: Opaque{"non-positive interval for Ticker.Reset"}}, site: t.callerPos(), desc: "non-positive interval for Ticker.Reset"})
+		}
+		tm.active = false
+		nt := p.addTimer(d, nil, tm.ch, d, tm.obj)
+		pt := args[0].(Ptr)
+		p.side[sideKey{pt.O, pt.I}] = nt
+		return nil
+	}, "(*time.Ticker).Reset")
+	reg(func(t *Task, fn *ssa.Function, args []Value) Value {
+		p := t.p
 		tm := p.addTimer(args[0].(*Term), nil, nil, nil, nil)
 		t.blockUntil(func() bool { return !tm.active }, "time.Sleep")
 		return nil
